@@ -27,7 +27,7 @@ def do_case(ctx, inp):
     cb = np.asarray(g.column_bounds()).tolist()
     if [[int(a), int(b)] for a, b in zip(cb[0], cb[1])] != [list(b) for b in p["bnds"]]:
         ctx.case(inp, nontriv, tg); ctx.fail("column-bounds-not-the-declared-bounds", {"reported": cb, "declared": p["bnds"]}); return
-    small = box_size(p) <= (20000 if ctx.quick else 200000)
+    small = box_size(p) <= (20000 if ctx.quick else 100000)
     if small:
         sols = solutions(p)
         tg.add("feasible" if sols else "infeasible")
@@ -54,6 +54,19 @@ def do_case(ctx, inp):
                 ctx.case(inp, nontriv, tg); ctx.fail("row-combination-count-wrong", {"row": i, "reported": ncomb[i], "enumerated": cnt}); return
     else:
         tg.add("box-not-enumerated")
+        # boxes too large to enumerate: row bounds and combination counts in closed form (exact integers) — the extremes
+        # of a linear form over a box are attained at the column bounds, and the restrictions of the box to a row's
+        # non-zero columns are the product of those columns' ranges
+        for i, (b, cs) in enumerate(p["rows"]):
+            lo_ = sum(min(c * l, c * h) for c, (l, h) in zip(cs, p["bnds"])) - b
+            hi_ = sum(max(c * l, c * h) for c, (l, h) in zip(cs, p["bnds"])) - b
+            if [lo_, hi_] != [int(rb[i][0]), int(rb[i][1])]:
+                ctx.case(inp, nontriv, tg); ctx.fail("row-bounds-not-exact", {"row": i, "reported": rb[i], "exact": [lo_, hi_]}); return
+            cnt = 1
+            for c, (l, h) in zip(cs, p["bnds"]):
+                if c != 0: cnt *= (h - l + 1)
+            if cnt != ncomb[i]:
+                ctx.case(inp, nontriv, tg); ctx.fail("row-combination-count-wrong", {"row": i, "reported": ncomb[i], "exact": cnt}); return
         # corner probes: every corner of the box (each column at its lower or upper bound) that satisfies all rows is an
         # in-bounds integer solution and must survive the tightening
         if len(p["bnds"]) <= 8:
@@ -73,6 +86,7 @@ def do_case(ctx, inp):
 
 
 def run(ctx):
-    n = (1200 if ctx.quick else 8000) * (3 if ctx.search else 1)
+    n = (1200 if ctx.quick else 6000) * (3 if ctx.search else 1)
     for _ in range(n):
-        do_case(ctx, {"p": gen_poly(ctx.rng, ctx.quick, wide=ctx.rng.random() < 0.25)})
+        r = ctx.rng.random()
+        do_case(ctx, {"p": gen_poly(ctx.rng, ctx.quick, wide="all" if r < 0.04 else r < 0.27)})
